@@ -12,7 +12,9 @@ import (
 
 	lifecycle "github.com/boz/go-lifecycle"
 	"github.com/boz/kcache"
+	"github.com/boz/kcache/filter"
 	pkgerrors "github.com/pkg/errors"
+	metav1 "k8s.io/apimachinery/pkg/apis/meta/v1"
 )
 
 func init() {
@@ -267,7 +269,34 @@ func runC03(c *Ctx) {
 			}
 		}
 	}
-	c.Rep.Rule = "whole controller against the fake API server in a synctest bubble (virtual time): seeded random server histories over 2 namespaces x 3 names in three phases; refresh periods {2s,7s}; list latency {0, 1/2, 3/2} period; controller filters {none, Labels, Not(NSName)}; watch behaviour {healthy, never connects, connect hangs until cancelled, closes after every 2 events, drops events, duplicates events, status/bookmark frames, mixed}; 4 levels of logger-driven schedule perturbation. With the watch out of action: after every completed list cache = that list's accepted objects. After each phase: once a list that started after the server quiesced completes, cache = server's accepted objects, subscriber mirror = cache with well-formed strictly-newer events, no event before Ready, Close returns. The converged cache is compared with the extracted model's relist_outcome. Non-trivial = run with >= 3 lists."
+	// stale buffered watch events at a relist
+	nst := 12
+	if !c.Quick() {
+		nst = 100
+	}
+	for i := 0; i < nst; i++ {
+		problems, dl, chk, lists := staleBufferRun(c, c.Seed*7+int64(i), i%2)
+		runs++
+		c.Rep.Evaluations++
+		what := fmt.Sprintf("stale buffered watch event at relist, attempt %d", i)
+		replay := map[string]interface{}{"scenario": what, "lists": lists}
+		if dl != "" {
+			replay["deadlock"] = dl
+			c.Violation("", "the controller hangs (bubble deadlock): "+what, replay)
+		}
+		for _, p := range problems {
+			if p == "second list came too early for the scenario" || p == "no second list" {
+				c.Stat("stale_scenario_skipped", 1)
+				continue
+			}
+			c.Violation("", p+" ["+what+"]", replay)
+		}
+		if len(chk.L) > 0 {
+			c.Case(chk)
+		}
+		c.Stat("stale_buffer_runs", 1)
+	}
+	c.Rep.Rule = "whole controller against the fake API server in a synctest bubble (virtual time): seeded random server histories over 2 namespaces x 3 names in three phases; refresh periods {2s,7s}; list latency {0, 1/2, 3/2} period; controller filters {none, Labels, Not(NSName)}; watch behaviour {healthy, never connects, connect hangs until cancelled, closes after every 2 events, drops events, duplicates events, status/bookmark frames, mixed}; 4 levels of logger-driven schedule perturbation. With the watch out of action: after every completed list cache = that list's accepted objects. After each phase: once a list that started after the server quiesced completes, cache = server's accepted objects, subscriber mirror = cache with well-formed strictly-newer events, no event before Ready, Close returns. Plus a targeted scenario: a watch event that the next list contradicts sits in the watcher's buffer while the controller is busy (slow filter) and the stream stalls; after that list cache = list. The converged cache is compared with the extracted model's relist_outcome. Non-trivial = run with >= 3 lists."
 	c.Rep.Stats["runs"] = runs
 }
 
@@ -289,6 +318,7 @@ func classifyErr(err error) int {
 }
 
 type failRun struct {
+	busy     bool // the controller is busy (slow filter) while the failing list completes
 	kind     fakeapi.ListKind
 	k        int // the k-th list fails (0: none)
 	watch    string
@@ -325,7 +355,19 @@ func runFail(c *Ctx, r *failRun, seed int64, level int) {
 			}
 			return "ok"
 		}
-		ct := newCtlWith(srv, seed, level, 2*time.Second, nil)
+		var ff filter.Filter
+		if r.busy {
+			// applying list k-1 takes three periods: list k completes, and fails,
+			// while the controller is still busy
+			ff = filter.FN(func(o metav1.Object) bool {
+				ls, _ := srv.Calls()
+				if len(ls) == r.k-1 && len(ls) >= 1 && !ls[len(ls)-1].End.IsZero() {
+					time.Sleep(6 * time.Second)
+				}
+				return true
+			})
+		}
+		ct := newCtlWith(srv, seed, level, 2*time.Second, ff)
 		defer func() {
 			ct.c.Close()
 			ct.pert.SetLevel(0)
@@ -349,7 +391,11 @@ func runFail(c *Ctx, r *failRun, seed int64, level int) {
 			dones = append(dones, mon.Done())
 		}
 		r.nsubs = len(dones)
-		for i := 0; i < 5; i++ {
+		rounds := 5
+		if r.busy {
+			rounds = 12
+		}
+		for i := 0; i < rounds; i++ {
 			time.Sleep(2300 * time.Millisecond)
 			if r.watch == "closes" {
 				srv.Set(1, 2, labSets[i%3], 1)
@@ -384,8 +430,8 @@ func runFail(c *Ctx, r *failRun, seed int64, level int) {
 }
 
 func runC14(c *Ctx) {
-	kinds := []fakeapi.ListKind{fakeapi.ListErr, fakeapi.ListNonList, fakeapi.ListNoItems, fakeapi.ListNonObjects}
-	kindCode := map[fakeapi.ListKind]int{fakeapi.ListErr: 1, fakeapi.ListNonList: 2, fakeapi.ListNoItems: 3, fakeapi.ListNonObjects: 4}
+	kinds := []fakeapi.ListKind{fakeapi.ListErr, fakeapi.ListNonList, fakeapi.ListNoItems, fakeapi.ListNonObjects, fakeapi.ListErrCanceled}
+	kindCode := map[fakeapi.ListKind]int{fakeapi.ListErr: 1, fakeapi.ListNonList: 2, fakeapi.ListNoItems: 3, fakeapi.ListNonObjects: 4, fakeapi.ListErrCanceled: 1}
 	runs := 0
 	emit := func(r *failRun, what string) {
 		runs++
@@ -419,13 +465,17 @@ func runC14(c *Ctx) {
 			inputs = append(inputs, enc.L(enc.I(3)))
 		}
 		code := classifyErr(r.err)
-		c.Case(enc.L(enc.I(7), enc.L(inputs...), enc.B(r.ready), enc.I(code)))
+		mcode := code
+		if r.kind == fakeapi.ListErrCanceled && r.k > 0 && code == 3 {
+			mcode = 1 // the List error happens to be context.Canceled: still a list failure
+		}
+		c.Case(enc.L(enc.I(7), enc.L(inputs...), enc.B(r.ready), enc.I(mcode)))
 		// the property, directly
 		if r.k > 0 {
 			if !r.done {
 				c.Violation("", "the controller keeps running after a failed list: "+what, replay)
 			}
-			if code != 1 {
+			if code != 1 && !(r.kind == fakeapi.ListErrCanceled && code == 3) {
 				c.Violation("", fmt.Sprintf("Error() = %v does not report the list failure: %s", r.err, what), replay)
 			}
 			if r.kind == fakeapi.ListErr && pkgerrors.Cause(r.err) != fakeapi.ErrList {
@@ -478,6 +528,15 @@ func runC14(c *Ctx) {
 			}
 		}
 	}
+	// the failing list completes while the controller is busy applying the
+	// previous one: the failure must still be reported
+	for k := 2; k <= maxk; k++ {
+		for _, kind := range []fakeapi.ListKind{fakeapi.ListErr, fakeapi.ListNonObjects} {
+			r := &failRun{kind: kind, k: k, watch: "ok", busy: true}
+			runFail(c, r, c.Seed+int64(runs), 0)
+			emit(r, fmt.Sprintf("list failure kind=%d at list %d while the controller is busy with list %d", kind, k, k-1))
+		}
+	}
 	for _, w := range []string{"ok", "errors", "always-errors", "closes", "frames"} {
 		for _, trig := range []string{"", "close", "cancel"} {
 			r := &failRun{k: 0, watch: w, trigger: trig}
@@ -491,4 +550,86 @@ func runC14(c *Ctx) {
 	c.Rep.Rule = "whole controller (with a tree of a subscription, a clone with a filtered subscription, a for-filter clone and a monitor attached) against the fake API server in virtual time: every list failure kind {List error, object that is not a list, list type without items, list of non-objects} injected at the k-th list (k=1..3/4) under {healthy watch, connect errors, stream closes}; and no list failure with every watch failure kind {connect errors, always failing, stream closes, status/bookmark/unknown frames} with triggers {none, Close, context cancel}. Observed: Ready, Done, Error (cause by identity), descendants' Done; compared with the extracted controller model (krun) on the same input sequence. Non-trivial = every scenario (each has a distinct expected outcome); distinct by scenario."
 	c.Rep.Stats["runs"] = runs
 	c.Sample(map[string]interface{}{"scenario": "list error at list 2", "expected": "Done closed, Error cause = injected error, ready stays true, subtree done"})
+}
+
+// staleBufferRun: a watch event that the next list contradicts sits in the
+// watcher's output channel when the controller applies that list (the
+// controller is kept busy by a filter that takes virtual time).  After the
+// list the cache must equal the list: what predates a list must not be
+// applied after it.
+func staleBufferRun(c *Ctx, seed int64, variant int) (problems []string, deadlock string, check enc.T, lists int) {
+	deadlock = sched.Bubble(c.T, func() {
+		srv := fakeapi.New()
+		srv.Set(1, 1, labSets[1], 1)
+		slow := false
+		f := filter.FN(func(o metav1.Object) bool {
+			if slow && o.GetName() == Str(3) {
+				time.Sleep(500 * time.Millisecond)
+			}
+			return true
+		})
+		period := 4 * time.Second
+		ct := newCtlWith(srv, seed, 0, period, f)
+		defer func() {
+			ct.c.Close()
+			sched.Settle()
+		}()
+		sched.Settle()
+		if !isClosed(ct.c.Ready()) {
+			problems = append(problems, "not ready")
+			return
+		}
+		// wait until shortly before the second list starts
+		for {
+			ls, _ := srv.Calls()
+			if len(ls) >= 2 {
+				problems = append(problems, "second list came too early for the scenario")
+				return
+			}
+			time.Sleep(50 * time.Millisecond)
+			sched.Settle()
+			if time.Since(ls[0].End) > period*8/10 {
+				break
+			}
+		}
+		slow = true
+		srv.ListLatency = func(int) time.Duration { return 0 }
+		// keep the controller busy with an object whose filter call takes time
+		srv.Set(1, 3, labSets[0], 1)
+		time.Sleep(time.Millisecond)
+		// x appears (its event reaches the watcher's buffer) ...
+		srv.Set(2, 2, labSets[1], 1)
+		time.Sleep(time.Millisecond)
+		// ... the stream stalls, and x disappears before the next list
+		srv.Pause()
+		srv.Delete(2, 2)
+		if variant == 1 {
+			srv.Set(1, 1, labSets[2], 1)
+		}
+		// the second list completes while the controller is still busy
+		deadline := time.Now().Add(2 * period)
+		for time.Now().Before(deadline) {
+			time.Sleep(20 * time.Millisecond)
+			ls, _ := srv.Calls()
+			if len(ls) >= 2 && !ls[1].End.IsZero() {
+				break
+			}
+		}
+		slow = false
+		time.Sleep(600 * time.Millisecond)
+		sched.Settle()
+		ls, _ := srv.Calls()
+		lists = len(ls)
+		if len(ls) < 2 || ls[1].End.IsZero() {
+			problems = append(problems, "no second list")
+			return
+		}
+		got, _ := cacheIDs(ct.c.Cache())
+		want := objIDs(srv.ObjectsAt(ls[1].Version))
+		if len(ls) == 2 && !sameInts(got, want) {
+			problems = append(problems, fmt.Sprintf("after list 2 completed (stream stalled since before it): cache %v differs from that list %v: a watch event that predates the list was applied after it", got, want))
+		}
+		check = enc.L(enc.I(6), enc.L(enc.I(0)), EncObjs(srv.ObjectsAt(ls[1].Version)), enc.Ints(got))
+	})
+	return
 }
